@@ -33,7 +33,8 @@ Act2(pr) == << Op("S2gate", <<Q(4, 3), a345>>, pr) >>
 PassivePool == CatP(Pas1, ModesS, 1) \o CatP(Pas2, PairsS, 1)
 ActivePool  == PassivePool \o CatP(Act1, ModesS, 1) \o CatP(Act2, PairsS, 1)
 \* permutation-like unitaries: adjacent swaps (beamsplitters at pi/2) with a few phases -> cyclic shifts, unit-vector columns
-PermPool == [i \in 1 .. NMd - 1 |-> Op("BSgate", <<APi2, A0>>, <<i - 1, i>>)] \o << Op("Rgate", <<a345>>, <<0>>), Op("Rgate", <<APi2>>, <<NMd - 1>>) >>
+PermPool == [i \in 1 .. NMd - 1 |-> Op("BSgate", <<APi2, A0>>, <<i - 1, i>>)] \o << Op("Rgate", <<a345>>, <<0>>), Op("Rgate", <<APi2>>, <<NMd - 1>>),
+                                                                                        Op("Rgate", <<APi>>, <<1>>) >>     \* (a reflection: real, determinant -1)
 Pool == IF Kind = "unitary" THEN PassivePool ELSE IF Kind = "perm" THEN PermPool ELSE ActivePool
 Init == /\ \E n \in 0 .. Len0 : \E f \in [1 .. n -> 1 .. Len(Pool)] : recipe = [i \in 1 .. n |-> Pool[f[i]]]
         /\ noise \in (IF Kind = "cov" THEN 0 .. 2 ELSE {0})
